@@ -298,6 +298,14 @@ def bestbatch_case(case):
     pr = np.array([L.SPECS[i][2] for i in case["space"]])
     bs, rng_ = case["bs"], case["opts"].get("perturbation_range", 6)
     s = L.make_sampler("BestBatch", case["opts"], bs, case["seed"])
+    if case.get("set_after"):
+        # public attributes changed on the live object (a schedule narrowing the perturbation as the calibration proceeds):
+        # every call reads the values in force
+        with quiet():
+            s.sample(space, *L.history(space, case["n"], case["pattern"]))
+        for k_, v_ in case["set_after"].items():
+            setattr(s, k_, v_)
+        rng_ = case["set_after"].get("perturbation_range", rng_)
     pts, losses = L.history(space, case["n"], case["pattern"])
     with quiet():
         out = np.asarray(s.sample(space, pts, losses))
@@ -411,6 +419,10 @@ def main(ctx):
     for pr in (2, 6, 11):
         for seed in range(S, S + 4):
             bc.append({"space": [0, 3, 4, 8, 11], "opts": {"perturbation_range": pr, "a": 3.0, "b": 1.0}, "bs": 8, "seed": seed, "n": 40, "pattern": "ties"})
+    for sp in ([0], [0, 3], [5, 1, 3]):
+        for pr0, pr1 in ((6, 2), (6, 3), (2, 6), (11, 2)):
+            for seed in range(S, S + (3 if ctx.quick else 8)):
+                bc.append({"space": sp, "opts": {"perturbation_range": pr0, "a": 3.0, "b": 1.0}, "bs": 4, "seed": seed, "n": 9, "pattern": "distinct", "set_after": {"perturbation_range": pr1}})
     # long histories (a partial-sort or chunked path would only be taken there)
     for n in (999, 1000, 1001, 2500) + (() if ctx.quick else (5000, 20000)):
         for bs in (4, 10):
